@@ -261,14 +261,29 @@ fn segment(p: Profile, cfg: ConnCfg, as_client: bool, hostile: BoxedStrategy<Op>
         connect_args(v5),
         connack_args(v5),
         prop_oneof![9 => Just(false), fail_w => Just(true)],
-        proptest::collection::vec(body_op(p, as_client, v5, hostile), 0..p.max_body),
+        proptest::collection::vec(body_op(p, as_client, v5, hostile.clone()), 0..p.max_body),
         end,
         0u8..4,
         0u16..64,
         // hostile handshake: a mutated copy of the peer's CONNECT / CONNACK arrives before the real one
         if p.hostile > 0 { proptest::option::weighted(0.3, proptest::collection::vec(crate::checks::c05::mut_strategy(), 1..3)).boxed() } else { Just(None).boxed() },
+        // application / peer activity while the handshake is half done (CONNECT sent or received, CONNACK still missing)
+        proptest::option::weighted(0.2, proptest::collection::vec(body_op(p, as_client, v5, hostile), 1..4)),
     )
-        .prop_map(move |(pre, mut ca, mut ka, fail, body, end, chunk, small, hostile_hs)| {
+        .prop_map(move |(pre, mut ca, mut ka, fail, body, end, chunk, small, hostile_hs, mid_hs)| {
+            // a well-behaved peer sends nothing but the handshake packet before the connection is established: for the model
+            // checks only the application's own calls happen in that window
+            let mid_hs: Option<Vec<Op>> = mid_hs.map(|v| {
+                v.into_iter()
+                    .filter(|o| {
+                        p.hostile > 0
+                            || !matches!(
+                                o,
+                                Op::PeerPublish { .. } | Op::PeerAck { .. } | Op::PeerSubscribe { .. } | Op::PeerUnsubscribe { .. } | Op::PeerSuback { .. } | Op::PeerUnsuback { .. } | Op::PeerPingreq | Op::PeerPingresp | Op::PeerDisconnect { .. } | Op::PeerAuth { .. } | Op::PeerRaw(_) | Op::PeerPacket(_) | Op::PeerConnect(_) | Op::PeerConnack(_)
+                            )
+                    })
+                    .collect()
+            });
             if p.alias_heavy && v5 && small % 4 != 3 {
                 // the Topic Alias Maximum that applies to what this object sends is announced by the peer
                 let tam = Some([1u16, 2, 5, 2][(small % 4) as usize]);
@@ -337,12 +352,14 @@ fn segment(p: Profile, cfg: ConnCfg, as_client: bool, hostile: BoxedStrategy<Op>
                 if let Some(m) = &hostile_hs {
                     ops.push(Op::PeerRaw(crate::checks::c05::mutate_packet(&connack_ap(hv, &ka), cfg.idw, m)));
                 }
+                ops.extend(mid_hs.clone().unwrap_or_default());
                 ops.push(Op::PeerConnack(ka));
             } else {
                 if let Some(m) = &hostile_hs {
                     ops.push(Op::PeerRaw(crate::checks::c05::mutate_packet(&connect_ap(hv, &ca), cfg.idw, m)));
                 }
                 ops.push(Op::PeerConnect(ca));
+                ops.extend(mid_hs.clone().unwrap_or_default());
                 ops.push(Op::Connack(ka));
             }
             ops.extend(body);
